@@ -64,6 +64,7 @@ func verifC24New(autocreate string, aclJSON string) *verifC24Env {
 	store := metadata.NewInMemoryStore(metadataForBroker(brokerInfo))
 	s3 := &verifC24S3{MemoryS3Client: storage.NewMemoryS3Client(), uploads: map[string]int{}}
 	h := newHandler(store, s3, brokerInfo, slog.New(slog.NewTextHandler(io.Discard, nil)))
+	verifC24Store = store
 	return &verifC24Env{h: h, store: store, s3: s3}
 }
 
@@ -132,6 +133,22 @@ func (e *verifC24Env) snapshot() map[string]string {
 	return out
 }
 
+var verifC24Store *metadata.InMemoryStore
+
+// the id the store knows the topic by (or the id the name would get, for topics that do not exist)
+func verifC24TopicID(name string) [16]byte {
+	if verifC24Store != nil {
+		if meta, err := verifC24Store.Metadata(context.Background(), nil); err == nil {
+			for _, t := range meta.Topics {
+				if t.Topic != nil && *t.Topic == name {
+					return t.TopicID
+				}
+			}
+		}
+	}
+	return metadata.TopicIDForName(name)
+}
+
 func verifC24Batch() []byte {
 	data := make([]byte, 70)
 	binary.BigEndian.PutUint32(data[8:12], 58)
@@ -148,6 +165,27 @@ type verifC24Result struct {
 // build the request for key over the named resources; returns (request, version, prefix for snapshot names)
 func verifC24Request(key int16, names []string) (kmsg.Request, int16, string) {
 	switch key {
+	case 101: // Fetch v13 addressing topics by TopicID only
+		r := kmsg.NewPtrFetchRequest()
+		r.MaxWaitMillis = 0
+		r.MaxBytes = 1 << 20
+		for _, n := range names {
+			t := kmsg.NewFetchRequestTopic()
+			t.TopicID = verifC24TopicID(n)
+			p := kmsg.NewFetchRequestTopicPartition()
+			p.PartitionMaxBytes = 1 << 20
+			t.Partitions = append(t.Partitions, p)
+			r.Topics = append(r.Topics, t)
+		}
+		return r, 13, "topic:"
+	case 103: // Metadata v12 addressing topics by TopicID only
+		r := kmsg.NewPtrMetadataRequest()
+		for _, n := range names {
+			t := kmsg.NewMetadataRequestTopic()
+			t.TopicID = verifC24TopicID(n)
+			r.Topics = append(r.Topics, t)
+		}
+		return r, 12, "topic:"
 	case 0:
 		r := kmsg.NewPtrProduceRequest()
 		r.Acks = -1
@@ -474,6 +512,7 @@ func verifC24Do(e *verifC24Env, principal string, key int16, need string, names 
 		exists[i] = map[bool]string{true: "1", false: "0"}[ok && strings.HasPrefix(before[prefix+n], "parts=")]
 	}
 	cid := principal
+	key = key % 100
 	payload, err := e.h.Handle(ctx, &protocol.RequestHeader{APIKey: key, APIVersion: ver, CorrelationID: 1, ClientID: &cid}, req)
 	after := e.snapshot()
 	var changed []string
